@@ -2,9 +2,11 @@
 C04 — every transform is a fixed linear, row-independent operator scaling with dr.
 
 proofs : lean/PyAbel/Props/C04.lean (x·M, M x, triangular solve are linear; dr scaling; NNLS positive homogeneity)
-         lean/PyAbel/Props/C04Recursions.lean (the Hansen–Law recursion and the direct quadrature as coded are linear in the
-         row for every constant table / grid; Hansen–Law dr scaling both directions)
-K      : Model/Recursions.lean (hansenlaw_transform, direct_transform python backend) vs the implementation on random rows,
+         lean/PyAbel/Props/C04Recursions.lean (the Hansen–Law recursion, the direct quadrature and the Bordas peeling loop as
+         coded are linear in the row for every constant table / grid; dr scaling of all three, both directions; the Bordas loop
+         is the exact solve of its arcsine shell-weight system)
+K      : Model/Recursions.lean (hansenlaw_transform, direct_transform python backend, onion_bordas_transform with
+         shift_grid=False) vs the implementation on random rows,
          every direction/hold order/correction, dr values, sizes 3..301 (Hansen–Law constants regenerated from the source
          into Gen/Tables.lean by gen_tables.py on every run);
          the matrix models vs the implementation's arrays (harness/methods.corr_operators); for every method the
@@ -193,6 +195,8 @@ def corr_recursions(ck, tier):
                     if n >= 3:
                         lines.append(f"direct {fwd} {opt} {f2h(dr)} {arr2h(x)}")
                         meta.append(("direct", n, dr, fwd, opt, x))
+            lines.append(f"bordas {f2h(dr)} {arr2h(x)}")
+            meta.append(("onion_bordas", n, dr, 0, 0, x))
     try:
         replies = drive(lines)
     except Exception as e:
@@ -203,6 +207,8 @@ def corr_recursions(ck, tier):
         d = "forward" if fwd else "inverse"
         if meth == "hansenlaw":
             ref = quiet(abel.hansenlaw.hansenlaw_transform, x, dr=dr, direction=d, hold_order=opt)
+        elif meth == "onion_bordas":
+            ref = quiet(abel.onion_bordas.onion_bordas_transform, x, dr=dr, shift_grid=False)
         else:
             ref = quiet(abel.direct.direct_transform, x, dr=dr, direction=d, correction=bool(opt), backend="python")
         t = rep.split()
@@ -226,11 +232,11 @@ def run(tier):
     ck.cov["trusted_base"] = ["Lean 4.33 kernel", "axioms propext/Classical.choice/Quot.sound",
                               "theorems are about the matrix / triangular-solve forms; that each implementation *is* such "
                               "a fixed form is checked numerically (K.fixed-operator) for the sizes explored",
-                              "hansenlaw and direct (python backend) are modelled as recursions/quadratures in Lean "
-                              "(Model/Recursions.lean, correspondence K.recursions to 1e-13); onion_bordas (scipy half-pixel shift + "
-                              "loop) is covered by K.fixed-operator + S only",
+                              "hansenlaw, direct (python backend) and onion_bordas (shift_grid=False) are modelled in Lean "
+                              "(Model/Recursions.lean, correspondence K.recursions to 1e-13); the scipy half-pixel shift of "
+                              "onion_bordas shift_grid=True is covered by K.fixed-operator + S only",
                               "scipy nnls / lstsq / ndimage.shift are external"]
-    ck.cov["unproved_clauses"] = ["linearity of the Bordas loop as coded (measured)", "direct: dr scaling (measured)",
+    ck.cov["unproved_clauses"] = ["linearity of scipy.ndimage.shift in onion_bordas shift_grid=True (measured)",
                                   "linearity of image tools using scipy resampling (measured)"]
     ck.cov["source_fingerprint"] = source_fingerprint(["abel/hansenlaw.py", "abel/daun.py", "abel/dasch.py", "abel/basex.py",
                                                        "abel/direct.py", "abel/onion_bordas.py"])
